@@ -813,7 +813,7 @@ def wall_scale():
         over = os.getloadavg()[0] / float(os.cpu_count() or 1)
     except OSError:
         over = 1.0
-    return int(5 * max(1.0, over) + 0.999)
+    return min(20, int(5 * max(1.0, over) + 0.999))     # capped: a confirmed hang costs 2 x 20 s x scale
 
 
 def note_trip(chk, scenario, what):
